@@ -23,6 +23,7 @@ var families = []string{
 	"plain",                      // no disguise at all
 	"quoting",                    // legal quoting styles around names / paths (single, double, backtick, dollar, E)
 	"reader-spelling",            // file-reading table functions: case, whitespace/comment before '(', quoted / qualified names
+	"reader-nonascii-blank",      // a non-ASCII blank (U+00A0) between the reader name and the parenthesis
 	"backslash-quote",            // `\` before the closing quote of a plain '…' literal
 	"backslash-dquote",           // `\` before the closing quote of a "…" identifier
 	"estring-backslash",          // E'…\\' (escaped backslash before the closing quote) and E'…\'…'
@@ -130,6 +131,15 @@ var shapes = []shapeFn{
 	}},
 }
 
+func isASCII(s string) bool {
+	for i := 0; i < len(s); i++ {
+		if s[i] >= 0x80 {
+			return false
+		}
+	}
+	return true
+}
+
 func okTable(hdr string) string {
 	if hdr == "" {
 		return allowedDB + ".cpu"
@@ -218,7 +228,11 @@ func (g *gen) grid() []stmt {
 				col = "canary"
 			}
 			for _, q := range []string{"'" + sp + "'", "$$" + sp + "$$", "['" + sp + "']"} {
-				add("reader-spelling", "from", "", "SELECT "+col+" FROM "+spell+q+")")
+				fam := "reader-spelling"
+				if !isASCII(spell) {
+					fam = "reader-nonascii-blank"
+				}
+				add(fam, "from", "", "SELECT "+col+" FROM "+spell+q+")")
 				if i < 4 {
 					add("reader-spelling", "comma", "", "SELECT b.* FROM "+okTable("")+" a, "+spell+q+") b")
 					add("reader-spelling", "in-subquery", "", "SELECT host FROM "+okTable("")+" WHERE host IN (SELECT host FROM "+spell+q+"))")
